@@ -51,6 +51,15 @@ Theorem C06_standard :
 Proof. intros. split; reflexivity. Qed.
 Print Assumptions C06_standard.
 
+(* dense time: the tick semantics under the override the IA visitors compute equals the tick semantics under the
+   property's definition of insensitive predicates *)
+From RV Require Import Dense DenseSem DenseLaws.
+Theorem C06_dense :
+  forall (VS : Val) (AR : Arith VS) (io : nat -> bool) (sem : semantics) (W : list dsig) (tend : Z) (p : formula) (t : Z),
+    rhoZ AR (pk_impl io sem) W tend p t = rhoZ AR (pk_spec io sem) W tend p t.
+Proof. intros. apply rhoZ_pk_ext. apply pk_impl_spec. Qed.
+Print Assumptions C06_dense.
+
 Example C06_nonvacuous :
   let io := fun x => Nat.eqb x 0 in   (* variable 0 is an input, variable 1 an output *)
   let p : @formula ExtZVal := And (Pred CGeq (Var 0) (Const (Fin 1))) (Once (Pred CLeq (A2 Add (Var 0) (Var 1)) (Const (Fin 5)))) in
